@@ -57,6 +57,7 @@ type Conf struct {
 	PreLease bool     `json:"lease_time_plugin_first,omitempty"` // chain: lease_time 7200s, then range
 	NoShift  bool     `json:"-"`                                 // leave the edited-range restart out of the alphabet
 	MACs     []string `json:"macs"`                              // hex chaddr of the clients in the alphabet
+	Fixture  string   `json:"database_fixture,omitempty"`        // "" = the plugin creates its database; else see fixtureDB
 }
 
 type Op struct {
@@ -111,7 +112,15 @@ func u2ip(u uint32) string {
 func NewSys(r *ev.Run, id string, c Conf, crash bool) *Sys {
 	s := &Sys{r: r, id: id, conf: c, first: map[string]string{}, prom: map[string]time.Time{}, aged: map[string]bool{}, lease: c.Lease, start: ip2u(c.Start), end: ip2u(c.End), crash: crash}
 	s.db = filepath.Join(srv.Scratch(), fmt.Sprintf("lease-%d.sqlite", seq.Add(1)))
+	if c.Fixture != "" {
+		s.fixtureDB()
+	}
 	if err := s.setup(s.db, c.Lease); err != nil {
+		if c.Fixture != "" {
+			// refusing a database of another version is a legitimate start-up error
+			s.dead = true
+			return s
+		}
 		panic(err)
 	}
 	for i := 0; i < c.Prefill; i++ {
@@ -120,6 +129,32 @@ func NewSys(r *ev.Run, id string, c Conf, crash bool) *Sys {
 	}
 	s.hist = nil
 	return s
+}
+
+// releasedSchema is the leases4 table as the released plugin creates it: a lease database
+// found at start-up was normally written by an earlier run of that version.
+const releasedSchema = "create table if not exists leases4 (mac string not null, ip string not null, expiry int, hostname string not null, primary key (mac, ip))"
+
+// fixtureDB writes the database the plugin is started on: state carried over from a previous
+// installation ("released-schema": the table only; "released-schema+lease": one unexpired
+// lease of a background client on the first address, as that version stores it).
+func (s *Sys) fixtureDB() {
+	db, err := sql.Open("sqlite3", "file:"+s.db)
+	if err != nil {
+		panic(err)
+	}
+	defer db.Close()
+	if _, err := db.Exec(releasedSchema); err != nil {
+		panic(err)
+	}
+	if s.conf.Fixture == "released-schema+lease" {
+		mac := "02:ff:00:00:00:00"
+		if _, err := db.Exec("insert or replace into leases4(mac, ip, expiry, hostname) values (?, ?, ?, ?)", mac, s.conf.Start, time.Now().Add(24*time.Hour).Unix(), "old"); err != nil {
+			panic(err)
+		}
+		s.first["02ff00000000"] = s.conf.Start
+		s.prom["02ff00000000"] = time.Now()
+	}
 }
 
 func (s *Sys) setup(db, lease string) error {
@@ -672,7 +707,31 @@ func gaps(r *ev.Run, id string) {
 	}
 }
 
+// upgrades: the plugin started on a database left by the released version (fixture), then
+// requests and restarts: bindings handed out since then survive the next restart.
+func upgrades(r *ev.Run, id string) {
+	b, d := "020000000b02", "020000000d04"
+	for _, fx := range []string{"released-schema", "released-schema+lease"} {
+		conf := Conf{Start: "10.0.0.10", End: "10.0.0.12", Lease: "60s", NoShift: true, MACs: []string{b, d}, Fixture: fx}
+		for _, hist := range [][]Op{
+			{{Kind: "discover", MAC: b}, {Kind: "restart", Lease: "60s"}, {Kind: "discover", MAC: d}, {Kind: "request", MAC: b}, {Kind: "restart", Lease: "60s"}, {Kind: "request", MAC: d}},
+			{{Kind: "request", MAC: b, Host: hex.EncodeToString([]byte("h"))}, {Kind: "request", MAC: b}, {Kind: "age"}, {Kind: "request", MAC: b}, {Kind: "restart", Lease: "60s"}, {Kind: "discover", MAC: d}, {Kind: "discover", MAC: b}},
+		} {
+			s := NewSys(r, id, conf, id == "C03")
+			for _, op := range hist {
+				if s.Terminal() {
+					break
+				}
+				s.Apply(op, true)
+			}
+			s.Close()
+			r.Add("upgrade_histories", 1)
+		}
+	}
+}
+
 func sweeps(r *ev.Run, id string) {
+	upgrades(r, id)
 	gaps(r, id)
 	irrelevantOptions(r, id)
 	thorough := !r.Quick()
